@@ -508,6 +508,32 @@ pub fn build(seed: u64, size: usize) -> Pool {
             pushf(&mut ops, Op::CellToParent { cell: c, res: Some((d.resolution - dr).max(-1)) }, g, fam);
         }
     }
+    // (f) "label and outline" on two cells: centre and boundary of X and of a second cell Y (the
+    //     minimal two-keys-two-functions contention pattern)
+    for _ in 0..n(40) {
+        let &(x, g) = rng.pick(&base_cells);
+        let &(y0, _) = rng.pick(&base_cells);
+        let rx = a5::get_resolution(x);
+        if rx < 0 {
+            continue;
+        }
+        // Y: a sibling of X if possible, else any other cell
+        let y = match a5::cell_to_parent(x, None).and_then(|p| a5::cell_to_children(p, None)) {
+            Ok(ch) if ch.len() > 1 && rng.pct(60) => *rng.pick(&ch),
+            _ => y0,
+        };
+        if y == x || y == 0 {
+            continue;
+        }
+        fam += 1;
+        for c in [x, y] {
+            pushf(&mut ops, Op::CellToLonLat { cell: c }, g, fam);
+            pushf(&mut ops, Op::CellToBoundary { cell: c, closed: true, segments: Some(1) }, g, fam);
+        }
+        if rng.pct(50) {
+            pushf(&mut ops, Op::CellToBoundaryDefault { cell: x }, g, fam);
+        }
+    }
     // (c) projection: one face point under every face id; one point and its bitwise neighbours
     for _ in 0..n(30) {
         fam += 1;
